@@ -129,6 +129,84 @@ fn check_utf16(v: &[u16]) {
     }
 }
 
+// ---- decoding while the allocator refuses the k-th request of the crate ----
+// A well-formed input is accepted by String, so the decoding constructors must either return exactly String's text or
+// panic with the ReserveError message (they have no fallible form); an ill-formed one must be rejected as by String.
+// Reporting an allocation failure as "ill-formed input" (or returning a truncated text) is a mismatch.
+static FAULT_AT: std::sync::atomic::AtomicI64 = std::sync::atomic::AtomicI64::new(-1);
+static FAULT_SEEN: std::sync::atomic::AtomicI64 = std::sync::atomic::AtomicI64::new(0);
+fn refuse_now() -> bool {
+    let k = FAULT_SEEN.fetch_add(1, Ordering::SeqCst);
+    k == FAULT_AT.load(Ordering::SeqCst)
+}
+unsafe fn f_alloc(l: std::alloc::Layout) -> *mut u8 {
+    if refuse_now() { std::ptr::null_mut() } else { unsafe { std::alloc::alloc(l) } }
+}
+unsafe fn f_realloc(p: *mut u8, l: std::alloc::Layout, n: usize) -> *mut u8 {
+    if refuse_now() { std::ptr::null_mut() } else { unsafe { std::alloc::realloc(p, l, n) } }
+}
+unsafe fn f_dealloc(p: *mut u8, l: std::alloc::Layout) {
+    unsafe { std::alloc::dealloc(p, l) }
+}
+fn with_fault<T>(k: i64, f: impl FnOnce() -> T + std::panic::UnwindSafe) -> Result<T, String> {
+    FAULT_SEEN.store(0, Ordering::SeqCst);
+    FAULT_AT.store(k, Ordering::SeqCst);
+    let r = std::panic::catch_unwind(f);
+    FAULT_AT.store(-1, Ordering::SeqCst);
+    r.map_err(|p| p.downcast_ref::<String>().cloned().or_else(|| p.downcast_ref::<&str>().map(|s| s.to_string())).unwrap_or_default())
+}
+fn decode_under_faults() -> u64 {
+    use lean_string::LeanString;
+    lean_string::verif_hooks::set_allocator(f_alloc, f_realloc, f_dealloc);
+    let prev = std::panic::take_hook();
+    std::panic::set_hook(Box::new(|_| {}));
+    let texts = ["héllo wörld, ünïcödé", "水水水水水水水水水水", "ascii only, but longer than sixteen bytes", "𝄞𝄞𝄞𝄞𝄞𝄞 clef", "short é"];
+    let oom = "Cannot allocate memory";
+    let mut n = 0u64;
+    for t in texts {
+        let u16s: Vec<u16> = t.encode_utf16().collect();
+        let mut bad16 = u16s.clone();
+        bad16.push(0xd800);
+        let mut bad8 = t.as_bytes().to_vec();
+        bad8.push(0xff);
+        for k in 0..5i64 {
+            match with_fault(k, || LeanString::from_utf16(&u16s).map(|s| s.as_bytes().to_vec())) {
+                Ok(Ok(b)) if b == t.as_bytes() => {}
+                Err(m) if m.contains(oom) => {}
+                other => report(format!("MISMATCH from_utf16 of well-formed {:?} with request {k} refused: {:?}", t, other.map(|r| r.map(|b| hex(&b)).map_err(|_| "Err(FromUtf16Error)")))),
+            }
+            match with_fault(k, || LeanString::from_utf16(&bad16).is_err()) {
+                Ok(true) => {}
+                Err(m) if m.contains(oom) => {}
+                other => report(format!("MISMATCH from_utf16 of ill-formed input with request {k} refused: {:?}", other)),
+            }
+            match with_fault(k, || LeanString::from_utf16_lossy(&bad16).as_bytes().to_vec()) {
+                Ok(b) if b == String::from_utf16_lossy(&bad16).as_bytes() => {}
+                Err(m) if m.contains(oom) => {}
+                other => report(format!("MISMATCH from_utf16_lossy with request {k} refused: {:?}", other.map(|b| hex(&b)))),
+            }
+            match with_fault(k, || LeanString::from_utf8(t.as_bytes()).map(|s| s.as_bytes().to_vec()).map_err(|_| ())) {
+                Ok(Ok(b)) if b == t.as_bytes() => {}
+                Err(m) if m.contains(oom) => {}
+                other => report(format!("MISMATCH from_utf8 of well-formed {:?} with request {k} refused: {:?}", t, other.map(|r| r.map(|b| hex(&b))))),
+            }
+            match with_fault(k, || LeanString::from_utf8(&bad8).is_err()) {
+                Ok(true) => {}
+                Err(m) if m.contains(oom) => {}
+                other => report(format!("MISMATCH from_utf8 of ill-formed input with request {k} refused: {:?}", other)),
+            }
+            match with_fault(k, || LeanString::from_utf8_lossy(&bad8).as_bytes().to_vec()) {
+                Ok(b) if b == String::from_utf8_lossy(&bad8).as_bytes() => {}
+                Err(m) if m.contains(oom) => {}
+                other => report(format!("MISMATCH from_utf8_lossy with request {k} refused: {:?}", other.map(|b| hex(&b)))),
+            }
+            n += 6;
+        }
+    }
+    std::panic::set_hook(prev);
+    n
+}
+
 fn main() {
     let a: Vec<String> = std::env::args().collect();
     if a.len() < 2 {
@@ -249,6 +327,22 @@ fn main() {
                     }
                 }
             }
+            // ... and of prefixes whose length straddles every power-of-two block size up to 1024 bytes
+            for plen in (60usize..=68).chain(124..=132).chain(252..=260).chain(508..=516).chain(1020..=1028) {
+                let pre: Vec<u8> = (0..plen).map(|i| b'a' + (i % 26) as u8).collect();
+                for len in 1..=tail_max.min(2) {
+                    let n = (ALPHA.len() as u64).pow(len as u32);
+                    for code in 0..n {
+                        let mut v = pre.clone();
+                        let mut c = code;
+                        for _ in 0..len { v.push(ALPHA[(c % 20) as usize]); c /= 20; }
+                        v.extend_from_slice("é€".as_bytes());
+                        check_utf8(&v);
+                        total += 1;
+                    }
+                }
+            }
+            total += decode_under_faults();
             print!("{out}");
             checked = total;
         }
@@ -298,6 +392,23 @@ fn main() {
                     }
                 }
             }
+            // ... and after prefixes whose length straddles every power-of-two block size up to 1024 units (a decoder
+            // that works block-wise must carry a pending surrogate across the boundary)
+            for plen in (60usize..=68).chain(124..=132).chain(252..=260).chain(508..=516).chain(1020..=1028) {
+                let pre: Vec<u16> = (0..plen).map(|i| 0x61 + (i % 26) as u16).collect();
+                for len in 1..=maxlen.min(3) {
+                    let n = (ALPHA.len() as u64).pow(len as u32);
+                    for code in 0..n {
+                        let mut v = pre.clone();
+                        let mut c = code;
+                        for _ in 0..len { v.push(ALPHA[(c % 8) as usize]); c /= 8; }
+                        v.extend_from_slice(&[0x6f, 0x6b]);
+                        check_utf16(&v);
+                        total += 1;
+                    }
+                }
+            }
+            total += decode_under_faults();
             let mut st = 0x9876_5432u64;
             for _ in 0..20000 {
                 let len = (splitmix(&mut st) % 30) as usize;
